@@ -1,9 +1,11 @@
 //! okane-verif-replay: runs witness families / replay files against the real code.
 //! usage: okane-verif-replay <family> [args...]   -> prints one JSON object per line; last line is a summary.
+mod c04;
 mod c06;
 mod c07;
 mod c08;
 mod c19;
+mod c20;
 mod ledger;
 
 fn main() {
@@ -15,10 +17,12 @@ fn main() {
     // panics inside the code under test are observations, not crashes of the replayer
     std::panic::set_hook(Box::new(|_| {}));
     let rc = match args[1].as_str() {
+        "c04" => c04::run(&args[2..]),
         "c06" => c06::run(&args[2..]),
         "c07" => c07::run(&args[2..]),
         "c08" => c08::run(&args[2..]),
         "c19" => c19::run(&args[2..]),
+        "c20" => c20::run(&args[2..]),
         "c01" | "c02" | "c03" | "ledger" => ledger::run(&args[2..]),
         other => {
             eprintln!("unknown family {other}");
